@@ -5,3 +5,4 @@ import ArtGen.VAT
 import ArtGen.Dual
 import ArtGen.Topo
 import ArtGen.Falcon
+import ArtGen.Prep
